@@ -53,8 +53,8 @@ func (g *Gen) Next(n int) []byte {
 
 // Step is one scripted Read or Write call.
 type Step struct {
-	N   int  // bytes to transfer (capped by the offered buffer)
-	Err int  // 0 nil, 1 io.EOF (readers) / io.ErrShortWrite (writers), 2 ErrScripted
+	N   int // bytes to transfer (capped by the offered buffer)
+	Err int // 0 nil, 1 io.EOF (readers) / io.ErrShortWrite (writers), 2 ErrScripted
 }
 
 func (s Step) String() string {
